@@ -464,7 +464,11 @@ pub fn run(toks: &[&str]) -> String {
 
 /// C18: one snapshot() against a writer that stalled (mode 1: generation left odd right after the
 /// reader's first generation load; mode 2: a complete update lands before every re-load).
-///   stall <mode>  ->  <accesses> <result C|F|E> <first 24 access kinds>
+///   stall <mode>  ->  <accesses> <result C|F|E> <first 24 access kinds> <ms>
+/// mode 3: the client holds publication 1; publication 2 completes; the daemon dies in update 3 after
+/// the odd generation store and four cells, right after the client's first generation load.  The
+/// call exhausts its budget (E); the NEXT call (generation still odd) must answer with what the
+/// client held before.   ->  <accesses> <result> <kinds> <ms> <record returned by the next call>
 pub fn run_stall(toks: &[&str]) -> String {
     let mode: u32 = p(toks[0]);
     let path = scratch_dir().join(format!("stall-{}", SEQ.fetch_add(1, std::sync::atomic::Ordering::SeqCst)));
@@ -475,6 +479,11 @@ pub fn run_stall(toks: &[&str]) -> String {
     let cpath = std::ffi::CString::new(path.to_str().unwrap()).unwrap();
     let mut reader = ShmReader::new(cpath.as_c_str()).expect("reader");
     let base = map.base as usize;
+    if mode == 3 {
+        let _ = reader.snapshot().map(|c| *c); // the client holds publication 1
+        w.write(&record(2));
+    }
+    let rec3 = record(3);
     let count = Rc::new(std::cell::Cell::new(0u64));
     let kinds = Rc::new(std::cell::RefCell::new(String::new()));
     let (c2, k2) = (count.clone(), kinds.clone());
@@ -499,6 +508,13 @@ pub fn run_stall(toks: &[&str]) -> String {
                     // the daemon starts an update right after the reader's first generation load, then stalls
                     unsafe { ((base + OFF_GENERATION) as *mut u16).write_volatile(3) };
                 }
+                if n == 3 && mode == 3 {
+                    // the daemon starts update 3, stores four cells of it, and dies
+                    unsafe {
+                        ((base + OFF_GENERATION) as *mut u16).write_volatile(5);
+                        std::ptr::copy_nonoverlapping(&rec3 as *const ClockErrorBound as *const u8, (base + OFF_RECORD) as *mut u8, 32);
+                    }
+                }
                 'R'
             }
         };
@@ -521,7 +537,13 @@ pub fn run_stall(toks: &[&str]) -> String {
         }
         Err(_) => "E",
     };
-    let s = format!("{} {} {} {}", count.get(), res, kinds.borrow(), dt.as_millis());
+    let mut s = format!("{} {} {} {}", count.get(), res, kinds.borrow(), dt.as_millis());
+    if mode == 3 {
+        s.push_str(&match reader.snapshot().map(|c| *c) {
+            Ok(c) => format!(" {}", join(&cells_of(&c))),
+            Err(_) => " E".to_string(),
+        });
+    }
     drop(reader);
     drop(w);
     drop(map);
